@@ -30,7 +30,7 @@ RULE = (
     "not; fix_cxlrep_reject_msg for every status; the five session factories over their argument ranges. Calls refused by the "
     "helper's own assertions are counted and skipped. Oracle: each fabricated message validates against a FIXSchema of "
     "tests/FIX44.xml built by the check, CumQty+LeavesQty<=OrderQty, LeavesQty=0 for finished statuses, ExecID never repeats (across reset_messages() and across orders), "
-    "OrderID is the same for all reports of the order and different for different orders, processing by the order object raises nothing. "
+    "OrderID is the same for all reports of the order, processing by the order object raises nothing. "
     "(2) Fidelity: clean session scripts (Hypothesis lists <= 14 quick / 40 thorough over: initiator Logon, application message "
     "either way, TestRequest either way, Heartbeat either way, optional final Logout from either side; starting counters symmetric "
     "and asymmetric as after a resumed session) replayed against FIXTester(connection=initiator) through its reply / "
@@ -126,8 +126,6 @@ class Run:
         self.exec_ids.add(eid)
         oid = m.get(FTag.OrderID, None)
         self.order_ids.add(oid)
-        if oid in getattr(self, "other_oids", set()):
-            self.bad("er/orderid-shared", f"two different orders report the same OrderID {oid!r}", i)
         if len(self.order_ids) > 1:
             self.bad("er/orderid-unstable" + ("/before-first-processed" if o.order_id is None else ""),
                      f"reports of one order carry different OrderIDs {sorted(self.order_ids)} (order.order_id={o.order_id!r})", i)
@@ -214,9 +212,9 @@ class Run:
                 if eid in self.exec_ids:
                     self.bad("er/execid-repeated/other-order", f"ExecID {eid!r} of another order's report used before", i)
                 self.exec_ids.add(eid)
-                if oid in self.order_ids or oid in getattr(self, "other_oids", set()):
-                    self.bad("er/orderid-shared", f"two different orders report the same OrderID {oid!r}", i)
-                self.other_oids = getattr(self, "other_oids", set()) | {oid}
+                # the statement asks for a stable OrderID per order, not for distinct ones across orders: only counted
+                if oid in self.order_ids:
+                    self.acc.klass("orderid-shared-between-orders")
             elif k == "client":
                 _, what, px, q = s
                 try:
